@@ -312,6 +312,16 @@ def run_laws(spec, rec, rng, pint, monitors):
             want = {("zz" if k == k0 else k): v for k, v in dx.items()}
             if L.H(r) != L.H(L.make(want)) or not L.eq(r, L.make(want)):
                 ck.bad("rename", x=str(dx))
+            if L.kind == "ph":
+                # ParserHelper also multiplies / divides by a bare name
+                r = x * "zz"
+                ck.result("ph*str", r, madd(dx, {"zz": F(1)}), x=str(dx))
+                ck.eqhash("ph*str-vs-fresh", r, fresh(L, madd(dx, {"zz": F(1)})), True, x=str(dx))
+                r = x / k0
+                ck.result("ph/str", r, madd(dx, {k0: F(-1)}), x=str(dx))
+                ck.eqhash("ph/str-vs-fresh", r, fresh(L, madd(dx, {k0: F(-1)})), True, x=str(dx))
+                r = "zz" / x
+                ck.result("str/ph", r, madd({"zz": F(1)}, dx, -1), x=str(dx))
             c = x.copy()
             ck.eqhash("copy", c, x, True, x=str(dx))
             c2 = c * L.make({"a": F(1)})   # mutating the copy's derivation must not touch x
